@@ -327,4 +327,5 @@ def main(argv=None):
 
 
 if __name__ == '__main__':
-  main()
+  from vf import runner as _r   # single module identity for Violation
+  _r.main()
